@@ -522,13 +522,25 @@ func (h *HashObj) Invoke(ex *Exec, fr *frame, method string, args []Value) Value
 		} else {
 			d = ex.hashTerm(h.alg, h.buf)
 		}
-		var pre []*Term
-		if s, ok := args[0].(Slice); ok {
+		// append semantics: the digest is written into the argument's backing array when
+		// it has room (as the real implementations do), otherwise into a new array
+		if s, ok := args[0].(Slice); ok && s.data != nil {
+			need := len(s.data) + len(d)
+			if need <= cap(s.data) {
+				nd := s.data[:need]
+				for i, t := range d {
+					ex.noteWrite(&nd[len(s.data)+i])
+					nd[len(s.data)+i] = t
+				}
+				return Slice{data: nd}
+			}
+			var pre []*Term
 			for _, e := range s.data {
 				pre = append(pre, e.(*Term))
 			}
+			return ex.byteSlice(append(pre, d...))
 		}
-		return ex.byteSlice(append(pre, d...))
+		return ex.byteSlice(d)
 	case "Reset":
 		h.buf = nil
 		return nil
